@@ -1290,3 +1290,71 @@ def flw8c(ctx):
     if n < 4:
         raise AnchorMissing("FLW-8c: %d (loop, table) pairs examined (expected 4)" % n)
     return r
+
+
+# ---------------------------------------------------------------- FLW-14: a romaniser strips the tone of the syllable it matched, and only then
+
+def flw14(ctx):
+    """A romaniser input such as `a:[tone:51]` consumes the tone of the syllable in which it matches: Word::render then
+    leaves that syllable's tone digits out. The flag that suppresses the digits (a) belongs to one syllable -- it is
+    declared (or reset) inside the per-syllable loop -- and (b) is set only where the alias as a whole has matched (the
+    branch that writes the replacement), not while its terms are still being compared."""
+    r = RuleResult("FLW-14", "Word::render: the flag that suppresses a syllable's tone digits is per syllable (declared or reset inside the loop over the syllables) and is set only in the branch where the alias has matched as a whole (where its replacement is written)", floor=2)
+    lib = ctx.lib
+    b = ctx.fn(lib, "asca::word::Word::render")
+    root = hirq.inline_helpers(lib, b, prefixes=("asca::word::Word::",), max_depth=1,
+                               only_if=lambda cb: not cb.is_pub and any(x["e"] == "assign" for x in hirq.walk(cb.hir["body"])) and "alias_match" not in cb.path)
+    par = hirq.parent_map(root)
+    # the tone output and its guard
+    flags = {}
+    for x in hirq.walk(root):
+        if x["e"] != "if":
+            continue
+        pushes_tone = any(y["e"] == "mcall" and y["name"] in ("push_str", "push") and any(z["e"] == "field" and z.get("name") == "tone" for z in hirq.walk(y)) for y in hirq.walk(x["then"]))
+        if not pushes_tone:
+            continue
+        for c in _conj(x["cond"]):
+            c0 = hirq.strip(c)
+            if c0.get("e") == "unary" and c0.get("op") == "Not":
+                p0 = hirq.strip(c0["a"])
+                if p0.get("e") == "path" and "hid" in p0 and p0.get("ty") == "bool":
+                    flags[p0["hid"]] = (p0.get("local"), x)
+    if not flags:
+        raise AnchorMissing("FLW-14: Word::render: no `if !<flag> && syll.tone != 0 { push the tone }` found")
+    # the per-syllable loop: the for loop whose iterator mentions `self.syllables`
+    loops = [x for x in hirq.walk(root) if x["e"] == "match" and "ForLoop" in str(x.get("src")) and any(z["e"] == "field" and z.get("name") == "syllables" for z in hirq.walk(x.get("scrut") or {}))]
+    if not loops:
+        raise AnchorMissing("FLW-14: Word::render: loop over self.syllables not found")
+    syl_loop = max(loops, key=lambda l: sum(1 for _ in hirq.walk(l)))
+    in_loop = {id(y) for y in hirq.walk(syl_loop)}
+    for hid, (name, guard_if) in sorted(flags.items(), key=lambda kv: str(kv[0])):
+        lets = [x for x in hirq.walk(root) if x["e"] == "let" and any(q.get("hid") == hid for q in hirq.walk_pats(x["pat"]) if q.get("p") == "bind")]
+        resets = [x for x in hirq.walk(syl_loop) if x["e"] == "assign" and hirq.path_hid(x["lhs"]) == hid and hirq.strip(x["rhs"]).get("lit") is False]
+        per_syll = any(id(l) in in_loop for l in lets) or bool(resets)
+        r.inst("render: tone-suppressing flag `%s` is per syllable" % name, fn_loc(b, (lets[0] if lets else guard_if).get("ln")), "ok" if per_syll else "report")
+        if not per_syll:
+            r.report("FLW-14|%s|carried-across-syllables" % name, fn_loc(b, (lets[0] if lets else guard_if).get("ln")), b.path,
+                     "`%s` is declared outside the loop over the syllables and never reset: once a romaniser has matched a tone, the tone digits of every later syllable of the word are dropped too (`a:[tone:51] > x` prints `ka51.ta3` as `kx.ta`)" % name)
+        # sets: through intermediate locals (`matched_tone`) the value must be committed only in the replacement branch
+        sets = [x for x in hirq.walk(root) if x["e"] == "assign" and hirq.path_hid(x["lhs"]) == hid and hirq.strip(x["rhs"]).get("lit") is not False]
+        bad = []
+        for st in sets:
+            ok = False
+            x, child = par.get(id(st)), st
+            while x is not None:
+                if x.get("e") == "if" and hirq.strip(x["cond"]).get("e") != "letcond" and any(y is child for y in hirq.walk(x["then"])):
+                    writes_repl = any(pt.get("p") == "ts" and pt.get("path") == REPL for pt in hirq.walk_pats(x["then"]))
+                    if writes_repl:
+                        ok = True
+                        break
+                if x.get("e") == "loop" or (x.get("e") == "match" and "ForLoop" in str(x.get("src"))):
+                    break               # still inside the loop that compares the alias's terms
+                child = x
+                x = par.get(id(x))
+            if not ok:
+                bad.append(st)
+        r.inst("render: `%s` is set only in the branch that writes the matched alias's replacement (%d assignment(s))" % (name, len(sets)), fn_loc(b, sets[0].get("ln")) if sets else fn_loc(b), "ok" if sets and not bad else "report")
+        if bad or not sets:
+            r.report("FLW-14|%s|set-before-full-match" % name, fn_loc(b, (bad[0] if bad else guard_if).get("ln")), b.path,
+                     "`%s` is set while the terms of a romaniser are still being compared: an alias that matches a tone and then fails on a later term still drops the syllable's tone (`ha:[tone:51]x > Q` prints `han51` as `han`)" % name)
+    return r
